@@ -97,7 +97,8 @@ def check(ctx, comp, cfg, op, rng, name='', positive=False, small=False):
         if not np.allclose(lhs, rhs, rtol=1e-9, atol=1e-9 * max(1.0, np.abs(rhs).max() if rhs.size else 1.0)):
             ctx.violation(comp, cfg, 'derivative-not-additive', name=name)
         ctx.ev('fd-convergence')
-        errs = fd.fd_errors(op, op.range, x, d, Dd)
+        errs = fd.fd_errors(op, op.range, x, d, Dd, Dfun=lambda xp: op.derivative(xp)(d),
+                            floor=64 * np.finfo(float).eps * fd.term_scale(op, x, d))
         why = fd.verdict(errs)
         if why and not fd.quotient_sequence_converged(op.range):
             ctx.skip('difference quotients do not converge in the step range (oscillatory / explosive expression)')
